@@ -486,6 +486,8 @@ func c14Gen(t *rapid.T) (c c14Case, commentsAfterReq int) {
 	n := rapid.IntRange(1, 12).Draw(t, "ntargets")
 	if rapid.IntRange(0, 15).Draw(t, "many") == 0 {
 		n = rapid.IntRange(13, 50).Draw(t, "ntargets2")
+	} else if rapid.IntRange(0, 29).Draw(t, "verymany") == 0 {
+		n = rapid.IntRange(129, 400).Draw(t, "ntargets3") // more than any batch a reader may work in
 	}
 	nd := rapid.IntRange(0, 4).Draw(t, "ndefaults")
 	var defKeys []string
